@@ -1,16 +1,12 @@
 (* The parameters of Model/Faults.v built from the facts regenerated out of server.py / pathio.py,
    and the closed checks on them (evaluated by vm_compute in Props/C13.v). *)
 From Coq Require Import ZArith List Bool String.
-From Verif Require Import Lib.Sx Lib.Facts Model.Session Model.Faults Gen.Dispatch Gen.Faultsites Proofs.GenTable.
+From Verif Require Import Lib.Sx Lib.Facts Model.Session Model.Faults Model.FaultsCheck Gen.Dispatch Gen.Faultsites Proofs.GenTable.
 Import ListNotations.
 Open Scope list_scope.
 Local Open Scope string_scope.
 
 Definition shipped_classes : list string := ["PathIO"; "AsyncPathIO"; "MemoryPathIO"].
-Definition backend_ops : list string :=
-  ["exists"; "is_dir"; "is_file"; "mkdir"; "rmdir"; "unlink"; "list"; "stat"; "open"; "seek"; "write"; "read";
-   "close"; "rename"].
-
 (* universal_exception is the OUTERMOST decorator of operation m in class c *)
 Definition wrapped_in (c m : string) : bool :=
   match assoc_s c pathio_wrappers with
@@ -49,13 +45,6 @@ Definition filectx_ok : bool :=
   open_is_lazy && list_eqb String.eqb filectx_enter ["_open"] && list_eqb String.eqb filectx_exit ["close"]
   && forallb (fun e => match assoc_s (fst e) filectx_bound with Some b => String.eqb b (snd e) | None => false end)
              [("seek", "seek"); ("write", "write"); ("read", "read"); ("close", "close"); ("iter_by_block", "read")].
-
-(* the dispatcher answers a PathIOError of any task with 451 and goes on *)
-Definition react_ok (r : option (list string)) : bool :=
-  match r with
-  | Some acts => list_eqb String.eqb acts ["response:451"; "continue"]
-  | None => false
-  end.
 
 (* the call sites the hand-written bodies of Model/Faults.v stand for are the ones in the source *)
 Definition methods_of (l : list bcall) : list string := map bc_method l.
@@ -100,22 +89,6 @@ Definition sites_ok : bool :=
 
 (* every worker detaches the data connection first, replies after its contexts, and has one of the known
    context shapes *)
-Definition file_item (it : string) : bool := String.eqb it "file_in" || String.eqb it "file_out".
-
-Inductive shape := FileFirst | StreamFirst | StreamOnly | Unknown.
-Definition shape_of (c : list string) : shape :=
-  match c with
-  | [a; b] => if file_item a && is_stream b then FileFirst
-              else if is_stream a && file_item b then StreamFirst else Unknown
-  | [a] => if is_stream a then StreamOnly else Unknown
-  | _ => Unknown
-  end.
-Definition shape_eqb (a b : shape) : bool :=
-  match a, b with
-  | FileFirst, FileFirst | StreamFirst, StreamFirst | StreamOnly, StreamOnly | Unknown, Unknown => true
-  | _, _ => false
-  end.
-
 Definition workers_ok : bool :=
   forallb (fun n => match find_worker n workers with
                     | Some w => w_detach_first w && w_reply_after_ctx w
